@@ -2,26 +2,30 @@
 from vt import chartgen as cg, seqrun
 
 ID = 'C02'
-RULE = ('same generator as C01 with scripts biased to hooks, guards and unanswered signals; per step the ground-truth '
+RULE = ('same generator as C01 with scripts biased to hooks, guards (including guards whose handler calls chart.trans() and then vetoes, or queries is_in / child_state, before it declines) and unanswered signals; per step the ground-truth '
         'offer log of the generated handlers must equal the path current state -> answering state predicted by the '
         'reference model (guard declines pass outward), and on handled / ignored steps no entry/exit/init action may '
         'run and state_name must not change (a lost search pointer shows up in the next step\'s offer log). '
         'distinct_nontrivial = distinct (kind, offer-path length, number of declines, depth of current state) tuples '
         'of non-transition steps plus the transition tuples of C01')
 CASES = {'quick': 30000, 'thorough': 600000}
-BUDGET = {'quick': 40, 'thorough': 600}
-REQUIRE = {'handled_steps': 1000, 'ignored_steps': 1000, 'declines': 200, 'hooks_at_depth_3': 5}
+BUDGET = {'quick': 40, 'thorough': 300}
+REQUIRE = {'handled_steps': 1000, 'ignored_steps': 1000, 'declines': 200, 'hooks_at_depth_3': 5, 'guards_touching_search_pointer': 1000}
 ASSUME = ['generated charts are well-formed', 'offers are observed inside the undecorated handler (one record per invocation with a user signal)']
 
 
 def run_case(ctx, n):
   rng = ctx.rng('case', n)
   params = seqrun.pick_params(rng, ctx.tier)
-  spec = cg.gen_spec(rng, **params)
+  spec = cg.gen_spec(rng, decline_pre=True, **params)
   # bias: more hooks and guards than C01
   for key, r in list(spec['react'].items()):
     if r['k'] == 'T' and rng.random() < 0.5:
-      spec['react'][key] = rng.choice([{'k': 'H'}, {'k': 'G', 't': r['t'], 'm': 2}, {'k': 'G', 't': None, 'm': rng.randint(2, 3)}])
+      spec['react'][key] = rng.choice([{'k': 'H'}, {'k': 'G', 't': r['t'], 'm': 2}, {'k': 'G', 't': None, 'm': rng.randint(2, 3)},
+                                       {'k': 'G', 't': r['t'], 'm': 2, 'pre': ['trans', rng.randrange(spec['n'])]},
+                                       {'k': 'G', 't': None, 'm': rng.randint(2, 3), 'pre': ['is_in', rng.randrange(spec['n'])]}])
+    if spec['react'][key].get('pre'):
+      ctx.count('guards_touching_search_pointer')
   start = rng.randrange(spec['n'])
   script = cg.gen_script(rng, spec, rng.randint(10, 60), p_unknown=0.15)
   for prop, key, what, wit in seqrun.run_plain(ctx, rng, spec, start, script):
